@@ -812,7 +812,7 @@ def unpack_special_typing_primitive(spec: ValueSpec) -> Optional[Expression]:
                 return expr_or_maybe_none(spec, uv)
         elif is_new_type(spec.type):
             return UnpackerRegistry.get(
-                spec.copy(type=spec.type.__supertype__)
+                spec.copy(type=spec.type.__supertype__, could_be_none=True)
             )
         elif is_literal(spec.type):
             return LiteralUnpackerBuilder().build(spec)
@@ -881,7 +881,9 @@ def unpack_special_typing_primitive(spec: ValueSpec) -> Optional[Expression]:
             if evaluated is not None:
                 return UnpackerRegistry.get(spec.copy(type=evaluated))
         elif is_type_alias_type(spec.type):
-            return UnpackerRegistry.get(spec.copy(type=spec.type.__value__))
+            return UnpackerRegistry.get(
+                spec.copy(type=spec.type.__value__, could_be_none=True)
+            )
         elif is_readonly(spec.type):
             return UnpackerRegistry.get(spec.copy(type=get_args(spec.type)[0]))
         raise UnserializableDataError(
